@@ -319,3 +319,50 @@ pub fn netstat<H: ToIpAddr>(host: H) -> Netstat {
         netstat::snapshot(net.fabric.kernel(id))
     })
 }
+
+/// Verification hooks, compiled only with `--cfg turmoil_verif`.
+#[allow(unexpected_cfgs)]
+pub mod verif {
+    /// `(sockets, binding-index entries, connection-index entries)` of the
+    /// host's socket table (read-only; includes closed and unbound sockets,
+    /// which `netstat` hides). Panics like [`netstat`](crate::netstat).
+    #[cfg(turmoil_verif)]
+    pub fn table_counts<H: crate::ToIpAddr>(host: H) -> (usize, usize, usize) {
+        crate::CURRENT.with(|c| {
+            let cell = c.borrow();
+            let net = cell
+                .as_ref()
+                .expect("no Net installed — call Net::enter() first");
+            let ip = host
+                .try_to_ip_addr(&net.dns)
+                .expect("hostname not registered");
+            let id = net
+                .fabric
+                .host_for_ip(ip)
+                .unwrap_or_else(|| panic!("no host registered for {ip}"));
+            net.fabric.kernel(id).verif_counts()
+        })
+    }
+
+    /// Replace the host's ephemeral port range (test set-up only).
+    #[cfg(turmoil_verif)]
+    pub fn set_ephemeral_range<H: crate::ToIpAddr>(
+        host: H,
+        range: std::ops::RangeInclusive<u16>,
+    ) {
+        crate::CURRENT.with(|c| {
+            let mut cell = c.borrow_mut();
+            let net = cell
+                .as_mut()
+                .expect("no Net installed — call Net::enter() first");
+            let ip = host
+                .try_to_ip_addr(&net.dns)
+                .expect("hostname not registered");
+            let id = net
+                .fabric
+                .host_for_ip(ip)
+                .unwrap_or_else(|| panic!("no host registered for {ip}"));
+            net.fabric.kernel_mut(id).verif_set_ephemeral_range(range);
+        })
+    }
+}
